@@ -1,10 +1,10 @@
 // C06 correspondence harness (Flow): drives the real TCPIP::Flow::process_packet with real IP/TCP/RawPDU packets.
-//   init <seq> [hex-of-stream]      new Flow(dst 10.0.0.2:80, seq) with data + out-of-order callbacks installed
-//   seg <seq> <hex> [@off]          IP / TCP(seq) / RawPDU(hex) through process_packet ("-" = RawPDU with empty payload)
-//   segp <seq> <hex> [@off]         the same packet serialized and re-parsed from bytes first (as a sniffer delivers it)
-//   bare <seq>                      IP / TCP(seq) without payload layer
-//   adv <seq>                       Flow::advance_sequence
-//   ignore                          Flow::ignore_data_packets()
+//   finit <seq> [hex-of-stream]     new Flow(dst 10.0.0.2:80, seq) with data + out-of-order callbacks installed
+//   fseg <seq> <hex> [@off]         IP / TCP(seq) / RawPDU(hex) through process_packet ("-" = RawPDU with empty payload)
+//   fsegp <seq> <hex> [@off]        the same packet serialized and re-parsed from bytes first (as a sniffer delivers it)
+//   fbare <seq>                     IP / TCP(seq) without payload layer
+//   fadv <seq>                      Flow::advance_sequence
+//   fignore                         Flow::ignore_data_packets()
 // result: "<r> ooo=<n> seq=.. total=.. plen=.. ph=.. buf=.." where r = r=1 iff the data callback fired during the op,
 // ooo = number of out-of-order callback invocations during the op (with a check that it was handed seq and payload).
 #include "common.h"
@@ -55,11 +55,11 @@ int main() {
     return line_loop([&](const std::string& line) -> std::string {
         auto w = words(line);
         c.data_calls = 0; c.ooo_calls = 0; c.ooo_args_ok = true;
-        if (w.size() >= 2 && w[0] == "init") {
+        if (w.size() >= 2 && w[0] == "finit") {
             install(c, uint32_t(std::stoull(w[1])));
-            return show("init", c);
+            return show("finit", c);
         }
-        if (w.size() >= 3 && (w[0] == "seg" || w[0] == "segp")) {
+        if (w.size() >= 3 && (w[0] == "fseg" || w[0] == "fsegp")) {
             bytes d;
             if (!parse_hex(w[2], d)) return "bad-op";
             uint32_t seq = uint32_t(std::stoull(w[1]));
@@ -67,7 +67,7 @@ int main() {
             IP ip = IP("10.0.0.2", "10.0.0.1") / TCP(80, 4321) / RawPDU(d.begin(), d.end());
             ip.rfind_pdu<TCP>().seq(seq);
             ip.rfind_pdu<TCP>().flags(TCP::ACK);
-            if (w[0] == "segp") {
+            if (w[0] == "fsegp") {
                 std::vector<uint8_t> wire = ip.serialize();
                 IP parsed(wire.data(), uint32_t(wire.size()));
                 c.flow->process_packet(parsed);
@@ -76,20 +76,20 @@ int main() {
             }
             return show(c.data_calls ? "r=1" : "r=0", c) + (c.data_calls > 1 ? " !multi-data-callback" : "");
         }
-        if (w.size() >= 2 && w[0] == "bare") {
+        if (w.size() >= 2 && w[0] == "fbare") {
             IP ip = IP("10.0.0.2", "10.0.0.1") / TCP(80, 4321);
             ip.rfind_pdu<TCP>().seq(uint32_t(std::stoull(w[1])));
             ip.rfind_pdu<TCP>().flags(TCP::ACK);
             c.flow->process_packet(ip);
             return show(c.data_calls ? "r=1" : "r=0", c);
         }
-        if (w.size() >= 2 && w[0] == "adv") {
+        if (w.size() >= 2 && w[0] == "fadv") {
             c.flow->advance_sequence(uint32_t(std::stoull(w[1])));
-            return show("adv", c);
+            return show("fadv", c);
         }
-        if (w[0] == "ignore") {
+        if (w[0] == "fignore") {
             c.flow->ignore_data_packets();
-            return show("ignore", c);
+            return show("fignore", c);
         }
         return "bad-op";
     });
